@@ -210,12 +210,23 @@ fn stream_answer<'a>(src: &'a dyn Source, columns: bool, keep: &mut Vec<Retained
   Answer::Stream(text, st.info, if columns { attr } else { vec![] }, if columns { BTreeMap::new() } else { st.line_attr() })
 }
 
+thread_local! {
+  /// identity (address of the mappings string) of every map a Map(c) operation of this thread
+  /// got from the shared tree: a CachedSource must hand out the same stored instance every time
+  static IDENTITIES: std::cell::RefCell<Vec<(bool, usize)>> = const { std::cell::RefCell::new(Vec::new()) };
+}
+
+fn identity(m: &Option<rspack_sources::SourceMap>) -> usize {
+  m.as_ref().map_or(0, |m| m.mappings().as_ptr() as usize)
+}
+
 fn run_op<'a>(tree: &'a BoxSource, spec: &Spec, text: &str, op: Op, keep: &mut Vec<Retained<'a>>) -> Answer {
   let r = guard(|| match op {
     Op::Source => Answer::Text(tree.source().to_string()),
     Op::Size => Answer::Size(tree.size()),
     Op::Map(c) => {
       let m = tree.map(&opts(c, false));
+      IDENTITIES.with(|i| i.borrow_mut().push((c, identity(&m))));
       Answer::MapAttr(attr_from_map(m.as_ref(), text, c).unwrap_or_else(|e| vec![Some((e, None, 0, 0, None))]))
     }
     Op::Stream(c) => stream_answer(&**tree, c, keep),
@@ -285,6 +296,8 @@ thread_local! {
 }
 
 pub struct RunOut {
+  /// (columns, identity) of every map the shared tree handed out, incl. one final call per column setting
+  pub identities: Vec<(bool, usize)>,
   pub answers: Vec<Vec<Answer>>,
   pub violations: Vec<String>,
   pub deadlock: bool,
@@ -302,6 +315,7 @@ pub fn execute(p: &Program, schedule: &[u8], max_preemptions: u32) -> RunOut {
   let text = Arc::new(model_text(&p.tree));
   let answers: Arc<Mutex<Vec<Vec<Answer>>>> = Arc::new(Mutex::new(vec![vec![]; n]));
   let retained_err: Arc<Mutex<Vec<String>>> = Arc::new(Mutex::new(vec![]));
+  let identities: Arc<Mutex<Vec<(bool, usize)>>> = Arc::new(Mutex::new(vec![]));
   let (done_tx, done_rx) = std::sync::mpsc::channel::<usize>();
   let pool_ok = POOL.with(|pool| {
     let mut pool = pool.borrow_mut();
@@ -310,9 +324,10 @@ pub fn execute(p: &Program, schedule: &[u8], max_preemptions: u32) -> RunOut {
     }
     let pool = pool.as_ref().unwrap();
     for (tid, ops) in p.threads.iter().enumerate() {
-      let (sched, tree, text, answers, retained_err, ops, spec, done_tx) =
-        (sched.clone(), tree.clone(), text.clone(), answers.clone(), retained_err.clone(), ops.clone(), p.tree.clone(), done_tx.clone());
+      let (sched, tree, text, answers, retained_err, ops, spec, done_tx, identities) =
+        (sched.clone(), tree.clone(), text.clone(), answers.clone(), retained_err.clone(), ops.clone(), p.tree.clone(), done_tx.clone(), identities.clone());
       let job: Job = Box::new(move || {
+        IDENTITIES.with(|i| i.borrow_mut().clear());
         install_hook(&sched, tid);
         sched.begin(tid);
         let mut keep: Vec<Retained> = vec![];
@@ -323,6 +338,7 @@ pub fn execute(p: &Program, schedule: &[u8], max_preemptions: u32) -> RunOut {
           answers.lock().unwrap()[tid].push(a);
         }
         remove_hook();
+        identities.lock().unwrap().extend(IDENTITIES.with(|i| i.borrow().clone()));
         sched.finish(tid);
         // what was borrowed during streaming is read again after ALL threads have finished
         if sched.wait_all_done() {
@@ -360,7 +376,19 @@ pub fn execute(p: &Program, schedule: &[u8], max_preemptions: u32) -> RunOut {
   // on a deadlock the workers stay parked for ever (leaked); the run is a violation anyway
   let mut violations = sched.with(|g| g.violations.clone());
   violations.extend(retained_err.lock().unwrap().iter().cloned());
+  // one more map() per column setting after everything has finished
+  let mut ids = identities.lock().unwrap().clone();
+  if ok && matches!(p.tree, Spec::Cached(_)) {
+    for c in [false, true] {
+      if ids.iter().any(|x| x.0 == c) {
+        if let Ok(m) = guard(|| tree.map(&opts(c, false))) {
+          ids.push((c, identity(&m)));
+        }
+      }
+    }
+  }
   let out = RunOut {
+    identities: ids,
     answers: answers.lock().unwrap().clone(),
     violations,
     deadlock: sched.with(|g| g.deadlock),
@@ -377,6 +405,18 @@ fn judge(p: &Program, want: &[Vec<Answer>], out: &RunOut, schedule: &[u8]) -> Re
   let _ = schedule;
   if let Some(v) = out.violations.first() {
     return Err(format!("{v}; {sched_str}; trace: {}", out.trace.join(" | ")));
+  }
+  // write-once cache: every map() of a CachedSource root hands out the one stored instance
+  if matches!(p.tree, Spec::Cached(_)) {
+    for c in [false, true] {
+      let v: Vec<usize> = out.identities.iter().filter(|x| x.0 == c).map(|x| x.1).collect();
+      if v.windows(2).any(|w| w[0] != w[1]) {
+        return Err(format!(
+          "the map cached for columns={c} was replaced during the run: map() handed out different stored instances {v:x?}; {sched_str}; trace: {}",
+          out.trace.join(" | ")
+        ));
+      }
+    }
   }
   for (t, ops) in p.threads.iter().enumerate() {
     for (k, op) in ops.iter().enumerate() {
@@ -412,7 +452,7 @@ impl Prop for C18 {
      strictly one at a time under a harness-owned scheduler with lock modelling. Leg 1: random (mostly sparse) schedules. \
      Leg 2: for each generated program EVERY schedule with <=2 preemptions (depth-first, stateless re-execution, capped). \
      Oracle: each answer equals the same operation on a fresh twin run single-threaded; no deadlock; a cached map is never \
-     replaced; borrowed chunks/names/contents are re-read after all threads finished. Non-trivial: a schedule with >=1 context \
+     replaced (hook at the store, and identity of the instance every map() call hands out); borrowed chunks/names/contents are re-read after all threads finished. Non-trivial: a schedule with >=1 context \
      switch inside a library window (between two schedule points of one call); distinct by hash of the case JSON".into()
   }
   fn legs(&self, _tier: Tier) -> Vec<Leg<Case>> {
